@@ -43,7 +43,27 @@ class ModuleInterp:
         for local, imp in self.ctx.r.imports.get(modname, {}).items():
             if imp[0] == "module" and imp[1] in self.ctx.p.modules and "." not in local:
                 env.setdefault(local, {MODKEY: imp[1]})
+            elif imp[0] == "symbol" and imp[1] in self.ctx.p.modules and local not in env:
+                # `from m import v`: the importing module gets the value v had when the import ran — the module-level initial
+                # value, not what a later setter in m assigns (that is exactly what Python does)
+                src = self._initial_values(imp[1])
+                if imp[2] in src:
+                    env[local] = src[imp[2]]
         return env
+
+    def _initial_values(self, modname):
+        """Module-level literal assignments of modname (import-time values)."""
+        out = {}
+        mod = self.ctx.p.module(modname)
+        for st in mod.tree.body:
+            if isinstance(st, ast.Assign) and all(isinstance(t, ast.Name) for t in st.targets):
+                try:
+                    v = ast.literal_eval(st.value)
+                except Exception:
+                    continue
+                for t in st.targets:
+                    out[t.id] = v
+        return out
 
     def _hook(self, modname):
         def hook(name, args, kwargs):
@@ -81,6 +101,32 @@ class ModuleInterp:
             return ev.call(*args, **kwargs)
         finally:
             self.depth -= 1
+
+    def fake_class(self, clsinfo, name=None):
+        """A Python stand-in for a repository class: plain attributes are set by the caller, every method / property of the class is
+        bridged to the interpretation of its AST (so `self.helper()` inside an interpreted method works).  The returned type must be
+        passed in obj_types."""
+        ns = {}
+        for mname, finfo in clsinfo.methods.items():
+            if mname.startswith("__") and mname not in ("__eq__", "__len__"):
+                continue
+            is_prop = any(isinstance(d, ast.Name) and d.id == "property" for d in finfo.node.decorator_list)
+            setter = any(isinstance(d, ast.Attribute) and d.attr == "setter" for d in finfo.node.decorator_list)
+            if setter:
+                continue
+
+            def make(fi):
+                return lambda self_, *a, **k: self.call(fi, self_, *a, **k)
+            ns[mname] = property(make(finfo)) if is_prop else make(finfo)
+
+        def init(self_, **attrs):
+            for k, v in attrs.items():
+                object.__setattr__(self_, k, v)
+        ns["__init__"] = init
+        ty = type(name or ("Fake" + clsinfo.name), (), ns)
+        if ty not in self.obj_types:
+            self.obj_types = self.obj_types + (ty,)
+        return ty
 
     def read_global(self, modname, name):
         env = self.module_env(modname)
